@@ -15,6 +15,8 @@ for pid in ALL:
         na.append(dict(property_id=pid, reason=NOTES.get(pid, {}).get('na', 'check not built yet in this round (planned, see DESIGN.md section 3); not claimed')))
         continue
     p = mod.PROP
+    from pv import meta
+    meta.apply(p)
     checks.append(dict(
         property_id=pid,
         quick_cmd='bin/check %s --tier quick' % pid,
